@@ -978,7 +978,18 @@ fn format_subexpression(
             output.push(')');
         }
         ast::Expression::Member(expr, name) => {
+            // 1.x would read as a floating point literal
+            let merges = matches!(
+                expr.node,
+                ast::Expression::Literal(ast::Literal::IntUntyped(_))
+            );
+            if merges {
+                output.push('(');
+            }
             format_subexpression(expr, prec, OperatorSide::Left, output, context)?;
+            if merges {
+                output.push(')');
+            }
             output.push('.');
             format_scoped_identifier(name, output, context)?;
         }
@@ -1007,6 +1018,8 @@ fn format_subexpression(
 /// This is expected to be the same for both RSSL and HLSL
 fn get_expression_precedence(expr: &ast::Expression) -> Result<u32, FormatError> {
     let prec = match expr {
+        // A negative literal is printed with a leading minus sign so binds like a prefix operator
+        ast::Expression::Literal(lit) if is_negative_literal(lit) => 3,
         ast::Expression::Literal(_) | ast::Expression::Identifier(_) => 0,
         ast::Expression::UnaryOperation(op, _) => {
             use ast::UnaryOp::*;
@@ -1069,6 +1082,16 @@ fn get_expression_precedence(expr: &ast::Expression) -> Result<u32, FormatError>
         ast::Expression::AmbiguousParseBranch(_) => return Err(FormatError::AmbiguousParseBranch),
     };
     Ok(prec)
+}
+
+/// Test if a literal is printed with a leading minus sign
+fn is_negative_literal(literal: &ast::Literal) -> bool {
+    match literal {
+        ast::Literal::IntSigned64(v) => *v < 0,
+        ast::Literal::FloatUntyped(v) | ast::Literal::Float64(v) => v.is_sign_negative(),
+        ast::Literal::Float16(v) | ast::Literal::Float32(v) => v.is_sign_negative(),
+        _ => false,
+    }
 }
 
 /// Get the associativity of a precedence level
